@@ -581,6 +581,23 @@ def fam_coarse_dst():
     return out
 
 
+def fam_coarse_discount():
+    """assets with a coarser frequency of their own (two years on a yearly grid) and DIFFERENT discount rates side by side, in both orders:
+    the cash flow of a coarse step is discounted like its first year (as the implementation does; the documentation is silent)"""
+    ids = Ids()
+    out = []
+    T = 4
+    disc, DEN = F.disc_pow2(T)
+    grp = [1, 1, 2, 2]
+    dgrp = [disc[0], disc[0], disc[2], disc[2]]
+    for pr, order in itertools.product(([1, 5, 2, 6], [5, 1, 4, 2]), (0, 1)):
+        a = F.contract(T, 'n1', -1, 1, pr, group=grp, freq='730d', disc=dgrp, wacc=1.0)
+        b = F.contract(T, 'n1', -1, 1, [3, 3, 3, 3], ec=1, group=grp, freq='730d', disc=[DEN] * T, wacc=0.0)
+        c_ = slack(T, 'n1', [2, 4, 3, 3], lo=-2, hi=2, disc=disc, wacc=1.0)
+        out.append(F.make_cfg(ids(), T, [a, b, c_] if order == 0 else [b, a, c_], DEN=DEN, cal='y', variant='contracts', option='coarse_discount'))
+    return out
+
+
 def fam_periodic(thorough=False):
     ids = Ids()
     out = []
